@@ -332,6 +332,47 @@ class Exec:
         if alive:
             self.fail("C13", "after destroy: %d value object(s) in a reference cycle with the tree were never reclaimed (serials %s)" % (len(alive), alive[:5]))
         self.cyc.clear()
+    def gc_types(self, ni, na, via_value):
+        base = {"type": self.ext.BPlusTree, "subclass": self.Sub, "wrapper": self.pkg.BPlusTreeMap}[self.mode]
+        gc.collect()
+        class Local(base):
+            marker = 1
+            def hello(self): return "hi"
+        a1 = Local if na >= 2 else None
+        a2 = Local if na >= 3 else None
+        class Obj:
+            def __init__(self, n): self.n = n
+            def __lt__(self, o): return self.n < o.n
+            def __eq__(self, o): return self.n == o.n
+            __hash__ = None
+        refs = []
+        for _ in range(ni):
+            s = Local(capacity=4)
+            for k in range(30):
+                key, val = Obj(k), Obj(-k)
+                refs.append(weakref.ref(key)); refs.append(weakref.ref(val))
+                s[key] = val
+            key = val = None
+            if via_value: s[Obj(1000)] = s
+            else: s.me = s
+            s = None
+        gc.collect()
+        bad = []
+        alive = sum(1 for r in refs if r() is not None)
+        if alive: bad.append("%d key/value objects survive the collection of their trees" % alive)
+        mro = Local.__mro__
+        if mro is None or mro[0] is not Local or base not in mro:
+            bad.append("the subclass was torn down while still referenced: __mro__ = %r" % (mro,))
+        if getattr(Local, "marker", None) != 1 or "hello" not in Local.__dict__:
+            bad.append("the subclass lost its attributes")
+        if not bad:
+            try:
+                s = Local(capacity=4); s[1] = "one"
+                if s.hello() != "hi" or list(s.keys()) != [1] or s[1] != "one": bad.append("a new instance of the subclass misbehaves")
+                s = None
+            except Exception as e: bad.append("a new instance of the subclass raises %s" % type(e).__name__)
+        a1 = a2 = None
+        return bad
     def make(self, cap):
         cls = {"type": self.ext.BPlusTree, "subclass": self.Sub, "wrapper": self.pkg.BPlusTreeMap}[self.mode]
         return cls(capacity=cap)
@@ -389,6 +430,14 @@ class Exec:
             gc.collect()
             if bad:
                 self.fail("C12", "deepcheck capacity %d, %d ascending keys: %s" % (cap, n, "; ".join(bad[:5])))
+            return "ok"
+        if op == "gctypes":
+            # oracle-only: a subclass defined INSIDE a function (referenced by `na` local names the collector cannot
+            # see, and by its instances), `ni` instances each in a reference cycle (through the instance dict, or
+            # through a stored value), dropped and collected: every object that went through the trees is released,
+            # and the class itself is still the class that was defined
+            bad = self.gc_types(int(a[0]), int(a[1]), a[2] == "1")
+            if bad: self.fail("C13", "gctypes %s: %s" % (" ".join(a), "; ".join(bad[:4])))
             return "ok"
         if op == "repeatset":
             k = self.key(a[0]); v = self.val(a[1]); o = ord_of(self.flav, k); n = int(a[2])
@@ -700,6 +749,7 @@ def gen_case(r, n, kind):
                 yield "C iter next " + nm
     for nm in iters[:3]:
         yield "C iter next " + nm
+    if r.chance(6): yield "C gctypes %d %d %d" % (r.below(4), 1 + r.below(3), r.below(2))
     yield "C dump"
     yield "C refs"
     yield "C items"
@@ -750,6 +800,10 @@ def main():
         for m in ("type", "subclass", "wrapper"):
             ex.run_line("cfg mode " + m)
             for l in gen_caps(): ex.run_line(l)
+            ex.run_line("C new 4")
+            for ni in range(4):
+                for na in (1, 2, 3):
+                    for via in (0, 1): ex.run_line("C gctypes %d %d %d" % (ni, na, via))
         ex.close(); return
     if suite == "c-exh":
         caseno += 1
